@@ -13,14 +13,17 @@ THEOREMS = [
     'OpenHTF.AtomicFile.c17_atomic_output_to_file',
     'OpenHTF.AtomicFile.c17_atomic_atomic_write',
     'OpenHTF.AtomicFile.c17_success_exact',
+    'OpenHTF.AtomicFile.rename_before_close_is_not_atomic',
 ]
 RULE = ('OutputToFile subclass with a chunked serializer, OutputToJSON on a real record, and atomic_write; 0-4 chunks; old '
         'destination absent / present; faults: serializer raises after k chunks (every k), k-th write raises (every k), '
-        'close raises; crash (process kill: every later file-system operation is dropped) after every number of '
+        'close raises; crash (process kill: every later file-system operation is dropped, unflushed data lost) after every number of '
         'file-system operations; observed: the file-system operation log and the destination content afterwards; '
         'non-trivial = distinct case')
 ASSUMPTIONS = ['rename/move within one file system is atomic (staging directory = destination directory)',
-               'durability (fsync) is not claimed', 'a kill is simulated by dropping every later file-system operation']
+               'durability (fsync) is not claimed',
+               'a kill is simulated by dropping every later file-system operation; data written through the handle is buffered '
+               'until flush/close (worst case) and lost by a kill']
 TRUSTED = ['harness/props/c17.py (instrumented tempfile/shutil/os/open shims)', 'lean/OpenHTF/Driver/C17.lean']
 CONST_PREFIXES = ['c17.']
 PROCS = 8
@@ -56,6 +59,8 @@ class Fs(object):
 
 
 class TempWrapper(object):
+  """the open handle on the temporary file: what is written sits in a user-space buffer until flush / close (worst
+  case: nothing is written back earlier); a simulated kill loses the buffer"""
 
   def __init__(self, fs, text=False):
     self.fs = fs
@@ -64,7 +69,10 @@ class TempWrapper(object):
     self.alive = fs.op('create')
     if not self.alive:
       os.remove(self.name)
+    self.text = text
     self.f = open(self.name, 'w' if text else 'wb') if self.alive else None
+    self.buf = []
+    self.closed = False
 
   def write(self, data):
     k = self.fs.writes
@@ -73,21 +81,37 @@ class TempWrapper(object):
       raise IOError('injected write failure')
     raw = data.encode() if isinstance(data, str) else data
     if self.fs.op('app:' + (raw.hex() or '-')) and self.f is not None:
-      self.f.write(data)
+      self.buf.append(data)
     return len(data)
 
-  def flush(self):
+  def _write_back(self):
     if self.f is not None:
+      for d in self.buf:
+        self.f.write(d)
       self.f.flush()
+    self.buf = []
+
+  def flush(self):
+    if self.fs.op('flush'):
+      self._write_back()
 
   def fileno(self):
     return self.f.fileno()
 
   def close(self):
+    if self.closed:
+      return
+    self.closed = True
     if self.fs.close_fault:
+      if self.fs.op('closefail'):
+        self.buf = []
+        if self.f is not None:
+          self.f.close()
       raise IOError('injected close failure')
-    if self.f is not None:
-      self.f.close()
+    if self.fs.op('close'):
+      self._write_back()
+      if self.f is not None:
+        self.f.close()
 
   def __enter__(self):
     return self
@@ -237,7 +261,7 @@ def encode(case, obs):
   if case['prog'] == 'A':
     pass
   return 'C17 %s %s %d %s %s %s # %s %s NAME:%d' % (
-      case['prog'], '~' if case['old'] is None else (case['old'] or '-'), len(chunks), ' '.join(c or '-' for c in chunks),
+      case['prog'] + ('s' if case['prog'] == 'A' and case.get('filesync') else ''), '~' if case['old'] is None else (case['old'] or '-'), len(chunks), ' '.join(c or '-' for c in chunks),
       ftok, '-' if case.get('crash') is None else case['crash'], ' '.join(obs['log']), obs['dest'], 1 if obs['name_ok'] else 0)
 
 
@@ -265,9 +289,9 @@ def gen_cases(rng, tier):
             continue
           cases.append({'prog': prog, 'chunks': chunks, 'old': old, 'fault': list(fault), 'crash': None,
                         'pattern': ['str', 'callable'][len(cases) % 2], 'filesync': len(cases) % 3 == 0})
+        for j in range(0, n + 6):
+          cases.append({'prog': prog, 'chunks': chunks, 'old': old, 'fault': ['none', 0], 'crash': j, 'filesync': j % 2 == 1})
         for j in range(0, n + 4):
-          cases.append({'prog': prog, 'chunks': chunks, 'old': old, 'fault': ['none', 0], 'crash': j})
-        for j in range(0, n + 2):
           cases.append({'prog': prog, 'chunks': chunks, 'old': old, 'fault': ['ser', max(0, n - 1)], 'crash': j})
   for i in range(200 if tier == 'quick' else 3000):
     r = rng.derive(i)
@@ -280,7 +304,7 @@ def gen_cases(rng, tier):
     if fault[0] == 'write' and n == 0:
       fault = ['none', 0]
     cases.append({'prog': prog, 'chunks': chunks, 'old': r.choice([None, '6f6c64']), 'fault': fault,
-                  'crash': r.choice([None, None, r.randint(0, n + 3)])})
+                  'crash': r.choice([None, None, r.randint(0, n + 5)]), 'filesync': r.random() < 0.4})
   return cases
 
 
@@ -291,9 +315,9 @@ def known_match(entry, case, obs, msg):
 MANIFEST = {
     'text': 'Proof: Lean theorems over a file-system model for every old content, every serialization (any chunks), every '
             'fault (serializer after k chunks, k-th write, close) and every crash point (process killed after any number '
-            'of file-system operations): the destination either keeps its previous state or holds the complete new '
+            'of file-system operations, writes buffered in the handle until flush/close and lost by the kill): the destination either keeps its previous state or holds the complete new '
             'serialization, for OutputToFile with a filename pattern and for atomic_write; a fault-free run leaves '
-            'exactly the serialization. Tie: the real callbacks and atomic_write run over instrumented '
+            'exactly the serialization; counterexample theorem: renaming before closing is not atomic. Tie: the real callbacks and atomic_write run over instrumented '
             'tempfile/shutil/os/open shims in a scratch directory; the operation log is compared with the model and the '
             'destination content is inspected after every fault and crash point; the file name is checked against the '
             'formatted pattern.',
